@@ -265,12 +265,14 @@ class _SessionRegistry:
             entry = self._entries.get(session_id)
             if entry is None:
                 return None
-            if entry.expires_at < now:
+            expired = entry.expires_at < now
+            if expired:
                 del self._entries[session_id]
-                self._close_state_suppressed(entry.state)
+            elif entry.principal_key != principal_key:
                 return None
-            if entry.principal_key != principal_key:
-                return None
+        if expired:
+            self._close_entry(entry)
+            return None
         return entry
 
     def close(self, session_id: bytes) -> bool:
@@ -279,7 +281,7 @@ class _SessionRegistry:
             entry = self._entries.pop(session_id, None)
         if entry is None:
             return False
-        self._close_state_suppressed(entry.state)
+        self._close_entry(entry)
         return True
 
     def drain_expired(self, now: float | None = None) -> int:
@@ -290,7 +292,7 @@ class _SessionRegistry:
             expired_sids = [sid for sid, e in self._entries.items() if e.expires_at < now]
             expired = [self._entries.pop(sid) for sid in expired_sids]
         for entry in expired:
-            self._close_state_suppressed(entry.state)
+            self._close_entry(entry)
         return len(expired)
 
     def shutdown(self) -> None:
@@ -304,6 +306,15 @@ class _SessionRegistry:
             entries = list(self._entries.values())
             self._entries.clear()
         for entry in entries:
+            self._close_entry(entry)
+
+    def _close_entry(self, entry: _SessionEntry) -> None:
+        """Run the close hook of an entry already removed from the registry.
+
+        Holds the per-session lock, so the hook never runs while a request is
+        dispatching against the session; never called with the registry lock held.
+        """
+        with entry.lock:
             self._close_state_suppressed(entry.state)
 
     def __len__(self) -> int:
@@ -527,6 +538,17 @@ class _StickyMiddleware:
                     raise SessionLostError(
                         "session not found, expired, or principal mismatch",
                     )
+                # Acquire the per-session RLock for the duration of dispatch.
+                # Released in process_response. Same-session concurrent calls
+                # serialize here; different-session calls run in parallel.
+                # The session may have been closed or evicted while we waited
+                # for the lock: look it up again before dispatching.
+                entry.lock.acquire()
+                if self._registry.get(session_id, principal_key) is not entry:
+                    entry.lock.release()
+                    raise SessionLostError(
+                        "session not found, expired, or principal mismatch",
+                    )
             except SessionLostError as exc:
                 # Convert middleware-time SessionLostError into the same
                 # Arrow EXCEPTION-batch response shape that in-dispatch errors
@@ -536,10 +558,6 @@ class _StickyMiddleware:
                 _set_error_response(resp, exc, status_code=HTTPStatus.INTERNAL_SERVER_ERROR)
                 resp.complete = True
                 return
-            # Acquire the per-session RLock for the duration of dispatch.
-            # Released in process_response. Same-session concurrent calls
-            # serialize here; different-session calls run in parallel.
-            entry.lock.acquire()
             req.context.sticky_entry = entry
             req.context.sticky_entry_lock_acquired = True
             session_id_hex = session_id.hex()
@@ -582,6 +600,11 @@ class _StickyMiddleware:
     ) -> str:
         """Register *state* in the registry and seal a token bound to the principal."""
         session_id, expires_at = self._registry.open(state, ttl, principal_key)
+        entry = self._registry.get(session_id, principal_key)
+        if entry is not None:
+            entry.lock.acquire()
+            req.context.sticky_entry = entry
+            req.context.sticky_entry_lock_acquired = True
         auth, _ = _get_auth_and_metadata()
         aad = _compute_aad(auth)
         token = _seal_session_token(
@@ -614,14 +637,15 @@ class _StickyMiddleware:
             session_id = bytes.fromhex(sc.session_id)
         except ValueError:
             return False
-        # Release the per-session RLock before removal so process_response's
-        # release doesn't double-unlock.
+        # Close while still holding the per-session RLock (a request waiting
+        # on it must not dispatch before the close hook ran), then release it
+        # here so process_response's release doesn't double-unlock.
+        hit = self._registry.close(session_id)
         entry = getattr(req.context, "sticky_entry", None)
         if entry is not None and getattr(req.context, "sticky_entry_lock_acquired", False):
             with contextlib.suppress(RuntimeError):
                 entry.lock.release()
             req.context.sticky_entry_lock_acquired = False
-        hit = self._registry.close(session_id)
         # Clear the contextvar so subsequent ctx.session reads return None.
         sc_token = getattr(req.context, "sticky_session_token", None)
         if sc_token is not None:
